@@ -1279,6 +1279,9 @@ func checkSlice(ctx *Ctx, r *Report) {
 		r.undecided("M9", "Slice2D", 0, "constructor not found")
 		return
 	}
+	savedCap := termCap
+	termCap = 400000
+	defer func() { termCap = savedCap }()
 	alts, _ := ctorAlts(ctx, fn)
 	if len(alts) != 1 {
 		r.undecided("M9", "Slice2D", fn.Pos(), fmt.Sprintf("%d object-building alternatives, expected 1", len(alts)))
